@@ -116,7 +116,15 @@ Definition exec_event (i : istate) (e : event) : res istate :=
       | c :: rest => runs (mkI (i_s i) (i_n i) (i_new i) rest) [OLockFee v a c]
       end
   | EvPayFee _ _ => Err ENotFound   (* only the model's own finalisation produces these *)
-  | EvVaultCreate r v => runs i [OCreateVault r v]
+  | EvVaultCreate r v =>
+      (* a vault of a resource created by this transaction before any of it was minted *)
+      match take_new r (i_new i) with
+      | (Some ri, rest) =>
+          let tr := match r_supply ri with Some _ => true | None => false end in
+          runs (mkI (i_s i) (i_n i) rest (i_cont i))
+               [if r_nf ri then OCreateN r tr None else OCreateF r (r_div ri) tr None; OCreateVault r v]
+      | (None, _) => runs i [OCreateVault r v]
+      end
   end.
 
 Fixpoint exec_events (i : istate) (evs : list event) : res istate :=
